@@ -279,7 +279,7 @@ def run(spec, mon):
     n = 60 if tier == "quick" else 3000
     for i in range(n):
         gen = {"outcomes": OUTCOMES + ["abort"], "weights": {"abort": 0.3}} if i % 6 == 0 else {}
-        case = RB.gen_case(rng, gen=gen, p_stop=0.3, p_dry=0.12, p_user_skip=0.1)
+        case = RB.gen_case(rng, gen=gen, p_stop=0.3, p_dry=0.12, p_user_skip=0.1, p_names=0.1)
         fmt = FORMATS[i % len(FORMATS)]
         args = case["args"] + ["-D", "behave.reporter.summary.output_format=%s" % fmt]
         kw = {}
